@@ -24,15 +24,16 @@ KindsAllT == [o \in Ops |-> {"single", "search", "abandon", "unbind"}]
 VARIABLES l,        \* index of the next event
           pend,     \* the Call event waiting for its IdAlloc
           dead,     \* scenario abandoned after an unexplainable event
-          started   \* slot of the operation whose start failed at once (driver gone), awaiting its Ret
-tv == <<vars, l, pend, dead, started>>
+          started,  \* slot of the operation whose start failed at once (driver gone), awaiting its Ret
+          seen      \* message IDs of the requests the scripted server has read in this scenario
+tv == <<vars, l, pend, dead, started, seen>>
 
 E == Rec[l]
 Is(e) == l <= Len(Rec) /\ Rec[l].ev = e
 Adv == l' = l + 1
 SetOfSeq(sq) == {sq[n] : n \in 1..Len(sq)}
 Diag(tag) == PrintT(<<"DIAG", l, tag>>)
-Keep == UNCHANGED <<pend, dead, started>>
+Keep == UNCHANGED <<pend, dead, started, seen>>
 Chk(c, tag) == IF c THEN TRUE ELSE Diag(tag)     \* never a disjunction: TLC would explore both branches
 
 HasOwner(i) == \E o \in Ops : oid[o] = i
@@ -45,6 +46,12 @@ LS == SetOfSeq(E.s.sea)
 SameBook(ref) == ref.u = LU /\ DOMAIN ref.r = LR /\ DOMAIN ref.s = LS
 (* "more": the implementation keeps something the reference has dropped (a leak, C13);
    "less": it has dropped something the reference still keeps (whether that hurts shows in the invariants) *)
+(* "less" must never concern an operation whose caller is still listening: a routing entry the reference keeps, the
+   implementation has dropped, and whose reply sender / item sender somebody still waits on (C01: nothing that happens to
+   other IDs disturbs an operation) *)
+LiveRoute(i) == \/ (i \in DOMAIN resmap /\ reply[resmap[i]].st = "empty")
+                \/ (i \in DOMAIN seamap /\ itemRx[seamap[i]])
+LostOK(ref) == \A i \in ((DOMAIN ref.r \ LR) \cup (DOMAIN ref.s \ LS)) : ~LiveRoute(i)
 BookTag(ref) == IF LU \subseteq ref.u /\ LR \subseteq DOMAIN ref.r /\ LS \subseteq DOMAIN ref.s THEN "book:less" ELSE "book:more"
 
 (* ------------------------------ scenario control ------------------------------ *)
@@ -58,26 +65,26 @@ TReset ==
   /\ sstate' = [o \in Ops |-> "Fresh"] /\ sres' = [o \in Ops |-> NoMsg] /\ deadline' = [o \in Ops |-> NoDeadline]
   /\ drv' = "run" /\ net' = "up" /\ s2c' = <<>> /\ c2s' = {} /\ orphans' = 0 /\ tok' = 0 /\ hdrop' = FALSE
   /\ now' = 0 /\ got' = [o \in Ops |-> <<>>] /\ sentFor' = [o \in Ops |-> <<>>]
-  /\ pend' = [ev |-> "none"] /\ dead' = FALSE /\ started' = NoOp
+  /\ pend' = [ev |-> "none"] /\ dead' = FALSE /\ started' = NoOp /\ seen' = {}
 
 TSetLast == Is("SetLast") /\ Adv /\ Keep /\ used = {} /\ last' = E.last
             /\ UNCHANGED <<used, queues, maps, chans, callerv, envv, hist, now>>
 
 (* ---------------------------------- callers ---------------------------------- *)
-TCall == Is("Call") /\ Adv /\ pend' = E /\ UNCHANGED <<vars, dead, started>>
+TCall == Is("Call") /\ Adv /\ pend' = E /\ UNCHANGED <<vars, dead, started, seen>>
 
 TStart ==
   /\ Is("IdAlloc") /\ pend.ev = "Call" /\ Adv
   /\ Chk(AllocLaw(E.id), "alloc")
   /\ StartP(pend.o, pend.k, pend.t, pend.ad, pend.tg, E.id)
   /\ pend' = [ev |-> "none"] /\ started' = IF DrvAlive THEN started ELSE pend.o
-  /\ UNCHANGED dead
+  /\ UNCHANGED <<dead, seen>>
 
 (* is_closed() as reported right after the call returned: true exactly when the driver is gone (absent on returns of
    stream starts, where the handle is inside the stream) *)
 ClosedOK == ("closed" \notin DOMAIN E) \/ (E.closed <=> ~DrvAlive)
 TRet ==
-  /\ Is("Ret") /\ Adv /\ UNCHANGED <<pend, dead>>
+  /\ Is("Ret") /\ Adv /\ UNCHANGED <<pend, dead, seen>>
   /\ Chk(ClosedOK, "closed")
   /\ LET o == E.o IN
      \/ /\ E.r = "val" /\ reply[o].st = "val" /\ RecvReply(o)
@@ -116,6 +123,9 @@ TFinish ==
   /\ Chk((E.tok = FinishValue(E.o) /\ (E.rc = 88 <=> sres[E.o].typ # "done") /\ E.st = "Closed"), "stream")
 
 TDropHandles == Is("DropHandles") /\ Adv /\ Keep /\ DropHandles
+(* the caller walks away: an operation future dropped by an outer select!/timeout, a stream dropped without finish() *)
+TCancel == Is("Cancel") /\ Adv /\ Keep /\ Cancel(E.o)
+TStreamDrop == Is("StreamDrop") /\ Adv /\ Keep /\ StreamDrop(E.o)
 
 (* ---------------------------------- driver ---------------------------------- *)
 (* what the properties state outright about a scrub (C12: the late reply is delivered to nobody, the ID is reusable) and
@@ -127,6 +137,7 @@ TDrvScrub ==
   /\ scrubQ # <<>> /\ Head(scrubQ) = E.id
   /\ IF SameBook(ScrubRef) THEN DrvScrubP(ScrubRef.u, ScrubRef.r, ScrubRef.s)
      ELSE /\ Adoptable(resmap, LR) /\ Adoptable(seamap, LS) /\ Diag(BookTag(ScrubRef))
+          /\ Chk(LostOK(ScrubRef), "effect:lost-route")
           /\ DrvScrubP(LU, AdoptMap(resmap, LR), AdoptMap(seamap, LS))
 
 (* a scrub the model did not expect (for instance finish() on a stream the model considers Done): harmless by itself,
@@ -135,6 +146,7 @@ TDrvScrubX ==
   /\ Is("DrvScrub") /\ Adv /\ Keep
   /\ \A n \in 1..Len(scrubQ) : scrubQ[n] # E.id
   /\ Adoptable(resmap, LR) /\ Adoptable(seamap, LS) /\ Diag("xscrub")
+  /\ Chk(\A i \in ((DOMAIN resmap \ LR) \cup (DOMAIN seamap \ LS)) : ~LiveRoute(i), "effect:lost-route")
   /\ used' = LU /\ resmap' = AdoptMap(resmap, LR) /\ seamap' = AdoptMap(seamap, LS)
   /\ reply' = ReplyAfter(AdoptMap(resmap, LR), NoOp) /\ itemTx' = ItemTxAfter(AdoptMap(seamap, LS))
   /\ UNCHANGED <<last, queues, itemQ, itemRx, callerv, envv, hist, now>>
@@ -146,6 +158,7 @@ TDrvOp ==
   /\ IF ~E.ok THEN DrvOpSendFail
      ELSE IF SameBook(OpRef) THEN DrvOpSentP(OpRef.u, OpRef.r, OpRef.s)
      ELSE /\ Adoptable(resmap, LR) /\ Adoptable(seamap, LS) /\ Diag(BookTag(OpRef))
+          /\ Chk(LostOK(OpRef), "effect:lost-route")
           /\ DrvOpSentP(LU, AdoptMap(resmap, LR), AdoptMap(seamap, LS))
 
 TDrvRecv ==
@@ -153,6 +166,7 @@ TDrvRecv ==
   /\ s2c # <<>> /\ Head(s2c).id = E.id
   /\ IF SameBook(RecvRef) THEN DrvRecvP(RecvRef.u, RecvRef.r, RecvRef.s)
      ELSE /\ Adoptable(resmap, LR) /\ Adoptable(seamap, LS) /\ Diag(BookTag(RecvRef))
+          /\ Chk(LostOK(RecvRef), "effect:lost-route")
           /\ DrvRecvP(LU, AdoptMap(resmap, LR), AdoptMap(seamap, LS))
 
 TDrvExit ==
@@ -174,20 +188,24 @@ TWBlocked == Is("WBlocked") /\ Adv /\ Keep /\ DrvOpBegin
 (* what the scripted server decoded from the bytes it read: the request must be one the model put on the wire, of the
    same kind, and an AbandonRequest must name the ID the caller gave *)
 AppOfKind(k) == CASE k = "single" -> {0, 10, 14} [] k = "search" -> {3} [] k = "abandon" -> {16} [] k = "unbind" -> {2} [] OTHER -> {}
-TSrvGot == /\ Is("SrvGot") /\ Adv /\ Keep /\ UNCHANGED vars
+TSrvGot == /\ Is("SrvGot") /\ Adv /\ UNCHANGED <<vars, pend, dead, started>> /\ seen' = seen \cup {E.id}
            /\ Chk(\E r \in c2s : r.id = E.id /\ E.app \in AppOfKind(r.kind), "wire")
            /\ Chk(E.app # 16 \/ \E r \in c2s : r.id = E.id /\ r.tg = E.tg, "wire:abandon")
 TTick == Is("Tick") /\ Adv /\ Keep /\ Chk(~TimerDue, "time") /\ TickCore /\ now' = E.now
 
 (* ------------------------------ observations ------------------------------ *)
+(* at the quiescent point everything the model put on the wire has been read by the scripted server (C13: Abandon sends
+   an AbandonRequest naming the given ID - also for an ID that is no longer routed) *)
 TQuiet == /\ Is("Quiet") /\ Adv /\ Keep /\ UNCHANGED vars
+          /\ Chk(\A r \in c2s : r.kind = "abandon" => r.id \in seen, "wire:missing:abandon")
+          /\ Chk(\A r \in c2s : r.kind # "abandon" => r.id \in seen, "wire:missing")
           /\ Chk(SetOfSeq(E.used) \subseteq used, "quiet:more") /\ Chk(used \subseteq SetOfSeq(E.used) /\ E.last = last, "quiet:less")
 TClientClosed == /\ Is("ClientClosed") /\ Adv /\ Keep /\ UNCHANGED vars
                  /\ Chk((~DrvAlive => (E.shutdown \/ E.dropped)), "close")
 TIgnored == (Is("IdRelease")) /\ Adv /\ Keep /\ UNCHANGED vars
 
 Explained ==
-  \/ TSetLast \/ TCall \/ TStart \/ TRet \/ TCallNext \/ TRetNext \/ TInner \/ TFinish \/ TDropHandles
+  \/ TSetLast \/ TCall \/ TStart \/ TRet \/ TCallNext \/ TRetNext \/ TInner \/ TFinish \/ TDropHandles \/ TCancel \/ TStreamDrop
   \/ TDrvScrub \/ TDrvScrubX \/ TDrvOp \/ TDrvRecv \/ TDrvExit
   \/ TSrvGot \/ TSrvSend \/ TSrvOrphan \/ TSrvGarbage \/ TSrvClose \/ TSrvStall \/ TSrvResume \/ TWBlocked \/ TTick \/ TQuiet \/ TClientClosed \/ TIgnored
 
@@ -195,8 +213,8 @@ Explained ==
 TUnexplained ==
   /\ l <= Len(Rec) /\ E.ev # "Reset" /\ Adv
   /\ Diag(<<"core", E.ev>>)
-  /\ dead' = TRUE /\ UNCHANGED <<vars, pend, started>>
-TSkip == l <= Len(Rec) /\ E.ev # "Reset" /\ Adv /\ UNCHANGED <<vars, pend, dead, started>>
+  /\ dead' = TRUE /\ UNCHANGED <<vars, pend, started, seen>>
+TSkip == l <= Len(Rec) /\ E.ev # "Reset" /\ Adv /\ UNCHANGED <<vars, pend, dead, started, seen>>
 
 (* invariants evaluated on every new state of a live scenario; differences are reported, not fatal *)
 InvDiag ==
@@ -217,7 +235,7 @@ TrNext ==
         ELSE IF ENABLED Explained THEN Explained /\ InvDiag
         ELSE TUnexplained
 
-TrInit == /\ Init /\ last = 0 /\ l = 1 /\ pend = [ev |-> "none"] /\ dead = FALSE /\ started = NoOp
+TrInit == /\ Init /\ last = 0 /\ l = 1 /\ pend = [ev |-> "none"] /\ dead = FALSE /\ started = NoOp /\ seen = {}
 TrSpec == TrInit /\ [][TrNext]_tv
 
 Accepted == IF TLCGet("stats").diameter - 1 = Len(Rec) THEN TRUE
